@@ -109,9 +109,9 @@ def run(tier, seed):
         clamp = [(2, 1, 1), (3, 1, 1), (4, 1, 1)]
         nrand, rmin, rmax = 1000, 6, 40
     else:
-        plan = [([(1, 2, 3), (2, 2, 3), (3, 2, 3), (4, 2, 2)], None), ([(5, 2, 2)], 1), ([(6, 2, 1)], 1), ([(7, 1, 1)], 1)]
+        plan = [([(1, 2, 3), (2, 2, 3), (3, 2, 3), (4, 2, 2)], None), ([(5, 2, 2)], 1), ([(6, 2, 1)], 1), ([(7, 0, 2)], 1)]
         clamp = [(2, 2, 2), (3, 2, 2), (4, 2, 2), (5, 1, 1)]
-        nrand, rmin, rmax = 20000, 6, 40
+        nrand, rmin, rmax = 10000, 6, 40
     out = []
 
     def fmt(spaces):
